@@ -5,6 +5,7 @@ import (
 	"compress/flate"
 	"compress/zlib"
 	"context"
+	"crypto/rsa"
 	"encoding/base64"
 	"encoding/xml"
 	"errors"
@@ -25,6 +26,7 @@ import (
 	"verif/engine/core"
 	"verif/engine/harness"
 	"verif/engine/samlgen"
+	"verif/engine/xenc"
 )
 
 // C09 — message-consuming APIs are total.
@@ -403,6 +405,8 @@ func runC09(c *core.Ctx) {
 	c09Framings(c, sp, idp)
 	c09Bytes(c, sp, idp)
 	c09Resolver(c, sp)
+	c09Placements(c, sp)
+	c09EncryptedLengths(c, sp)
 }
 
 // c09Metadata pushes one metadata document through every metadata consumer, then registers it with an IdP and asks for a response.
@@ -674,6 +678,146 @@ func c09Framings(c *core.Ctx, sp *saml.ServiceProvider, idp *saml.IdentityProvid
 				}
 			}
 		})
+	}
+}
+
+// c09Placements: where and how a (possibly huge) payload reaches the response-consuming entry points: the form field, the query
+// string, both, compressed or not. Whatever the library chooses to read, it must answer with the error contract and bounded allocation.
+func c09Placements(c *core.Ctx, sp *saml.ServiceProvider) {
+	c.Group("response-placements")
+	ids := []string{samlgen.ReqID}
+	good := samlgen.Doc(harness.BuildResponse(samlgen.DefaultResponse(), []*samlgen.Assertion{samlgen.DefaultAssertion()}, harness.Layout{SignResponse: true}, idp1(), spKey()))
+	gs := string(good)
+	cut := strings.Index(gs, ">") + 1
+	sizes := []int{len(good), 11 * 1024 * 1024, 64 * 1024 * 1024}
+	for _, n := range sizes {
+		for _, enc := range []string{"plain", "deflated"} {
+			if enc == "plain" && n > len(good) {
+				continue // a multi-megabyte form value is bounded by net/http, not by this library
+			}
+			for _, place := range []string{"form", "query-only", "query-and-empty-form-field", "query-and-form", "query-only-GET"} {
+				for _, api := range []string{"ParseResponse", "ValidateLogoutResponseRequest"} {
+					n, enc, place, api := n, enc, place, api
+					c.Case(fmt.Sprintf("placement/%s/%s/%s/%d", api, place, enc, n), func(t *core.T) {
+						t.NonTrivial()
+						var payload []byte
+						switch {
+						case enc == "plain":
+							payload = good
+						case n == len(good):
+							payload = deflate(good)
+						default:
+							payload = paddedDeflate(gs[:cut]+"<!--", "-->"+gs[cut:], n)
+						}
+						v := b64(payload)
+						target := samlgen.SPAcs
+						if api != "ParseResponse" {
+							target = samlgen.SPSlo
+						}
+						mk := func() *http.Request {
+							q := "?" + url.Values{"SAMLResponse": {v}}.Encode()
+							var r *http.Request
+							switch place {
+							case "form":
+								r = httptest.NewRequest("POST", target, strings.NewReader(url.Values{"SAMLResponse": {v}}.Encode()))
+							case "query-only":
+								r = httptest.NewRequest("POST", target+q, strings.NewReader(url.Values{"RelayState": {"x"}}.Encode()))
+							case "query-and-empty-form-field":
+								r = httptest.NewRequest("POST", target+q, strings.NewReader(url.Values{"SAMLResponse": {""}}.Encode()))
+							case "query-and-form":
+								r = httptest.NewRequest("POST", target+q, strings.NewReader(url.Values{"SAMLResponse": {b64(good)}}.Encode()))
+							default:
+								return httptest.NewRequest("GET", target+q, nil)
+							}
+							r.Header.Set("Content-Type", "application/x-www-form-urlencoded")
+							return r
+						}
+						var ms0, ms1 runtime.MemStats
+						runtime.GC()
+						runtime.ReadMemStats(&ms0)
+						var pan bool
+						if api == "ParseResponse" {
+							_, pan = respContract(t, "ParseResponse-placement", place+"/"+enc, func() (*saml.Assertion, error) { return sp.ParseResponse(mk(), ids) })
+						} else {
+							_, pan = anyContract(t, "ValidateLogoutResponseRequest-placement", place+"/"+enc, func() (bool, error) {
+								e := sp.ValidateLogoutResponseRequest(mk())
+								return e == nil, e
+							})
+						}
+						runtime.ReadMemStats(&ms1)
+						if pan {
+							return
+						}
+						alloc := ms1.TotalAlloc - ms0.TotalAlloc
+						t.Outcome(fmt.Sprintf("alloc<=%dMB", 1<<uint(bitsFor(alloc>>20))))
+						// the request itself (base64 of the stream) is small; 10 MB of permitted inflation plus parsing overhead stays far below this
+						if n > 10*1024*1024 && alloc > 256<<20 {
+							t.Fail("C09/"+api+"/inflate-unbounded-allocation/"+place, "a %d-byte request value placed as %s inflating to %d bytes made %s allocate %d MB", len(v), place, n, api, alloc>>20)
+						}
+					})
+				}
+			}
+		}
+	}
+}
+
+func bitsFor(x uint64) int {
+	n := 0
+	for x > 0 {
+		n++
+		x >>= 1
+	}
+	return n
+}
+
+// c09EncryptedLengths: an EncryptedAssertion whose key genuinely unwraps with the SP key (anybody holding the SP's public certificate can
+// build one) and whose data CipherValue has every small length around the block boundaries, for every block algorithm.
+func c09EncryptedLengths(c *core.Ctx, sp *saml.ServiceProvider) {
+	c.Group("encrypted-assertion-ciphertext-lengths")
+	ids := []string{samlgen.ReqID}
+	pt := samlgen.Doc(func() *etree.Element {
+		a := samlgen.DefaultAssertion().Element()
+		samlgen.Sign(a, idp1(), "")
+		return a
+	}())
+	for _, alg := range []string{xenc.AES128CBC, xenc.AES192CBC, xenc.AES256CBC, xenc.TDESCBC, xenc.AES128GCM} {
+		for _, kt := range []xenc.KeyTransport{{Alg: xenc.OAEPMGF1P, DigestURI: "http://www.w3.org/2000/09/xmldsig#sha1"}, {Alg: xenc.RSA15}} {
+			for _, n := range []int{-1, 0, 1, 7, 8, 9, 11, 12, 13, 15, 16, 17, 23, 24, 25, 27, 28, 29, 31, 32, 33, 47, 48, 49} {
+				for _, lay := range []harness.Layout{{SignAssertion: true}, {SignResponse: true}} {
+					alg, kt, n, lay := alg, kt, n, lay
+					key := fmt.Sprintf("enclen/%s/%s/len=%d/lay=%s", alg[strings.LastIndexAny(alg, "#")+1:], kt.Alg[strings.LastIndexAny(kt.Alg, "#")+1:], n, lay)
+					c.Case(key, func(t *core.T) {
+						t.NonTrivial()
+						ed, err := xenc.Encrypt(alg, kt, &spKey().Key.(*rsa.PrivateKey).PublicKey, spKey().CertB64, harness.NewCtr(key), pt)
+						if err != nil {
+							t.Fail("C09/harness", "cannot encrypt: %v", err)
+							return
+						}
+						cv := ed.FindElement("./CipherData/CipherValue")
+						full, _ := base64.StdEncoding.DecodeString(cv.Text())
+						switch {
+						case n == 0:
+							cv.SetText("")
+						case n > 0 && n <= len(full):
+							cv.SetText(b64(full[:n]))
+						}
+						ea := etree.NewElement("saml:EncryptedAssertion")
+						ea.CreateAttr("xmlns:saml", samlgen.NSAssertion)
+						ea.AddChild(ed)
+						resp := samlgen.DefaultResponse().Element()
+						resp.AddChild(ea)
+						if lay.SignResponse {
+							samlgen.Sign(resp, idp1(), "")
+						}
+						doc := samlgen.Doc(resp)
+						e, pan := respContract(t, "ParseXMLResponse-encrypted", "ciphertext-length", func() (*saml.Assertion, error) { return parseXML(sp, doc, ids) })
+						if !pan && n == -1 && e != nil && alg != xenc.AES128GCM {
+							t.Fail("C09/ParseXMLResponse-encrypted/rejects-valid/"+alg[strings.LastIndexAny(alg, "#")+1:], "an untruncated, correctly encrypted and signed assertion is rejected: %s", privErr(e))
+						}
+					})
+				}
+			}
+		}
 	}
 }
 
